@@ -176,18 +176,24 @@ def make_algo(n_iter, n_burn=None, frac_=None, power=0.8, extra=None):
         return TensorMcmcSaemAlgorithm(settings)
 
 
-def drive(run: Run, n_iter, nb, power, key):
-    """Run the real _maximization_step for k = 1..n_iter on a stub model; return per-iteration records."""
+def drive(run: Run, n_iter, nb, power, key, late=False):
+    """Run the real _maximization_step for k = 1..n_iter on a stub model; return per-iteration records.
+    late=True: the algorithm object is built from the default fraction and the explicit count is then given to the BUILT object through
+    its documented `load_parameters({...})` — every reader of the count (phase test, step size, flag) must see the same, current value."""
     import torch
     try:
-        algo = make_algo(n_iter, n_burn=nb, frac_=None, power=power)
+        if late:
+            algo = make_algo(n_iter, n_burn=None, frac_=0.9, power=power)
+            algo.load_parameters({"n_burn_in_iter": nb})
+        else:
+            algo = make_algo(n_iter, n_burn=nb, frac_=None, power=power)
     except Exception as e:  # an explicit count with a legal power is an accepted configuration
         run.fail(f"constructor-raises:{type(e).__name__}", f"explicit n_burn_in_iter={nb} (fraction None) refused: {type(e).__name__}: {e}",
                  dict(n_iter=n_iter, n_burn_in_iter=nb, n_burn_in_iter_frac=None, burn_in_step_power=power))
         return []
     if algo.algo_parameters["n_burn_in_iter"] != nb:
         run.fail("n-burn-explicit", "explicit n_burn_in_iter not honoured",
-                 dict(n_iter=n_iter, n_burn_in_iter=nb, frac=None, resolved=algo.algo_parameters["n_burn_in_iter"]))
+                 dict(n_iter=n_iter, n_burn_in_iter=nb, frac=None, resolved=algo.algo_parameters["n_burn_in_iter"], given_after_construction=late))
     model = StubModel(torch, run.rng("stub", key))
     recs = []
     prev = None
@@ -227,14 +233,16 @@ def check(run: Run):
     for n_iter in range(1, max_n + 1):
         for nb in range(0, n_iter + 1):
             for power in (powers if (n_iter + nb) % 3 == 0 or thorough else powers[1:2]):
-                recs = drive(run, n_iter, nb, power, (n_iter, nb, power))
+                late = (n_iter * 7 + nb * 3) % 5 == 0        # a fifth of the grid: count given after construction
+                recs = drive(run, n_iter, nb, power, (n_iter, nb, power), late=late)
+                run.count("count_given", "to the built object (load_parameters)" if late else "in the settings")
                 for r in recs:
                     k = r["k"]
                     nontriv = k >= nb
                     run.case(("sched", n_iter, nb, power, k), nontrivial=nontriv)
                     run.count("phase", "memoryless" if r["memoryless"] else "memory")
                     branch_cases.append(f"({coq_Z(k)}, {coq_Z(nb)}, {coq_bool(r['memoryless'])}, {coq_bool(r['flag'])})")
-                    meta.append(dict(n_iter=n_iter, n_burn_in_iter=nb, power=power, k=k, memoryless=r["memoryless"], flag=r["flag"]))
+                    meta.append(dict(n_iter=n_iter, n_burn_in_iter=nb, power=power, k=k, memoryless=r["memoryless"], flag=r["flag"], count_given_after_construction=late))
                     if not r["same_obj"]:
                         run.fail("update-not-given-current-statistics", "update_parameters received an object other than algo.sufficient_statistics",
                                  meta[-1])
